@@ -432,9 +432,25 @@ def directed(ctx):
                                         only_style={"label": lab, "hint": hin, "guidance_hint": gui}, media=med)
         ctx.count("combo:forms")
         check_form(ctx, form, probes, "directed")
+    # the NUMBER of references in one cell as a size dimension: 1, 2, 15, 16, 17, 40 in every channel kind
+    # (mixed content, itext value, attribute through insert_xpaths) - the theorems say "any number"
+    for n in F.REF_COUNTS:
+        for langs in ([], ["en", "fr"]) if n in (17, 40) else ([],):
+            row = {"type": "text", "name": "q0"}
+            probes = []
+            for chan in ("label", "hint", "guidance_hint", "constraint_message", "required_message", "no_app_error_string",
+                         "appearance", "bind::foo", "body::bar"):
+                for lg in ((langs or [None]) if chan in F.TRANSLATABLE else [None]):
+                    parts = F.many_ref_parts(ctx.rng, ["a", "b2"], n)
+                    col = chan if lg is None else f"{chan}::{lg}"
+                    row[col] = F.cell_text(parts)
+                    probes.append({"id": len(probes), "chan": chan, "where": {"xpath": "/data/q0"}, "lang": lg, "parts": parts,
+                                   "sheet": "survey", "row": 2, "col": col})
+            ctx.count("manyrefs:forms")
+            check_form(ctx, {"survey": [*copy.deepcopy(base), row]}, probes, "directed")
     # F40: a quote before an instance() expression
     one([["t", "it's "], ["i", "instance('l')/root/item[name = 1]/label", None, ""]])
-    # F46: text that mentions indexed-repeat( … ) over several lines next to a reference
+    # F46 (fixed by 9564302; regression): text that mentions indexed-repeat( … ) over several lines next to a reference
     one([["t", "see indexed-repeat(x,\n"], ["r", "a"], ["t", ") z"]], chan="hint")
     one([["t", "indexed-repeat(x, y, 1) "], ["r", "a"], ["t", " same line"]], chan="label")
     # a question name with a declared namespace prefix: every channel of that question, 0-2 languages (F41 lives here)
@@ -552,6 +568,11 @@ def explore(ctx, factor, bs):
         if rng.random() < 0.03:
             s += rng.choice(["\r", "\r\n", "\t", "\n"]) + F.adv(rng, 2)
         corr_case(ctx, kind, s)
+    for n in F.REF_COUNTS:
+        for kind in ("mixed", "attrx"):
+            for _ in range(ctx.pick(2, 10)):
+                corr_case(ctx, kind, F.cell_text(F.many_ref_parts(rng, ["a", "b2", "q"], n)))
+                ctx.count("corr:manyrefs")
     for n in BOUNDARY_CHARS:
         validchars_case(ctx, f"a{chr(n)}b")
     for _ in range(ctx.pick(300, 5000) * factor):
@@ -593,10 +614,10 @@ def replay(ctx, payload, bs):
 
 MATCHERS = {
     # fixed, hence no matcher (they come back as VIOLATION): F4 (4f1a33e validate_xml_document), F4-reparse-non-xml-char
-    # (9bea19c character check before the re-parse), F41-guidance-prefixed-name (ac4d9ef rpartition in Survey.itext)
+    # (9bea19c character check before the re-parse), F41-guidance-prefixed-name (ac4d9ef rpartition in Survey.itext),
+    # F46-indexed-repeat-multiline-crash (9564302 RE_FUNCTION_ARGS with re.DOTALL); their directed cases stay as regressions
     "F15-instance-op-swallow": lambda f: f.signature in ("structure:instance-op-swallow", "not-recovered:instance-op-swallow", "shape:instance-op-swallow"),
     "F39-instance-double-escape": lambda f: f.signature in ("structure:instance-double-escape", "not-recovered:instance-double-escape", "shape:instance-double-escape"),
-    "F46-indexed-repeat-multiline-crash": lambda f: f.signature == "text-changes-outcome:indexed-repeat-multiline",
     "F40-instance-hidden-by-quote": lambda f: f.signature in ("structure:instance-hidden-by-quote", "not-recovered:instance-hidden-by-quote", "shape:instance-hidden-by-quote"),
 }
 
